@@ -9,6 +9,7 @@ import (
 	"math"
 	"math/big"
 	"strconv"
+	"strings"
 	"testing"
 
 	"github.com/Syuparn/pangaea/object"
@@ -25,9 +26,12 @@ type Case struct {
 	Op    string `json:"op"` // + - * // % / <=> ** neg
 	A     int64  `json:"a"`
 	B     int64  `json:"b"`
-	Route string `json:"route"` // ast | source
-	Got   string `json:"got,omitempty"`
-	Want  string `json:"want,omitempty"`
+	Route string `json:"route"` // ast | source | prog
+	// prog route: statements evaluated first in the same scope, then Main, whose two operands evaluate to A and B by construction
+	Pre  []string `json:"pre,omitempty"`
+	Main string   `json:"main,omitempty"`
+	Got  string   `json:"got,omitempty"`
+	Want string   `json:"want,omitempty"`
 }
 
 var ops = []string{"+", "-", "*", "//", "%", "/", "<=>", "**", "neg"}
@@ -43,6 +47,9 @@ func spell(v int64) string {
 }
 
 func source(c Case) string {
+	if c.Route == "prog" {
+		return strings.Join(append(append([]string{}, c.Pre...), c.Main), "; ")
+	}
 	if c.Op == "neg" {
 		return "a := " + spell(c.A) + "; -a"
 	}
@@ -53,6 +60,13 @@ func eval(c Case) interp.Outcome {
 	in := interp.Shared()
 	if c.Route == "source" {
 		return in.Run(source(c), interp.Opts{})
+	}
+	if c.Route == "prog" {
+		env := object.NewEnclosedEnv(in.Global)
+		for _, st := range c.Pre {
+			in.Run(st, interp.Opts{Env: env})
+		}
+		return in.Run(c.Main, interp.Opts{Env: env})
 	}
 	env := object.NewEnclosedEnv(in.Global)
 	interp.Bind(env, "a", object.NewPanInt(c.A))
@@ -334,6 +348,137 @@ func TestRandomPairsAST(t *testing.T) {
 func TestRandomPairsSource(t *testing.T) {
 	vt.Check(t, vt.N(40000, 2000000), func(rt *rapid.T) {
 		run(rt, genCase("source").Draw(rt, "case"), true)
+	})
+}
+
+// ---- operand provenance and shared operator sites ----
+
+func fits(v *big.Int) bool { return v.IsInt64() }
+
+// spellVia writes an expression that evaluates to v by one of the ways an int comes into being in a program.
+func spellVia(t *rapid.T, v int64, pre *[]string, label string) string {
+	V := big.NewInt(v)
+	small := rapid.Int64Range(-1000, 1000)
+	switch rapid.IntRange(0, 13).Draw(t, label+"via") {
+	case 1:
+		p := small.Draw(t, label+"p")
+		if q := new(big.Int).Sub(V, big.NewInt(p)); fits(q) {
+			return fmt.Sprintf("(%s + %s)", spell(q.Int64()), spell(p))
+		}
+	case 2:
+		p := small.Draw(t, label+"p")
+		if q := new(big.Int).Add(V, big.NewInt(p)); fits(q) {
+			return fmt.Sprintf("(%s - %s)", spell(q.Int64()), spell(p))
+		}
+	case 3:
+		if v == 0 {
+			k := small.Draw(t, label+"k")
+			return rapid.SampledFrom([]string{fmt.Sprintf("(%s * 0)", spell(k)), fmt.Sprintf("(0 * %s)", spell(k)), fmt.Sprintf("(%s - %s)", spell(k), spell(k)), "(6 % 3)", "(0 ** 5)", "(1 // 2)", "(3 <=> 3)", "[].len", `"".len`, fmt.Sprintf("(%s %% %s)", spell(k*7), "7")}).Draw(t, label+"zero")
+		}
+		d := rapid.SampledFrom([]int64{1, -1, 2, 3, 5, 7, 10}).Draw(t, label+"d")
+		if v%d == 0 && !(v == math.MinInt64 && d == -1) {
+			return fmt.Sprintf("(%s * %s)", spell(v/d), spell(d))
+		}
+	case 4:
+		d := rapid.SampledFrom([]int64{1, 2, 3, -2, -1, 10}).Draw(t, label+"d")
+		if n := new(big.Int).Mul(V, big.NewInt(d)); fits(n) && !(n.Int64() == math.MinInt64 && d == -1) {
+			return fmt.Sprintf("(%s // %s)", spell(n.Int64()), spell(d))
+		}
+	case 5:
+		if v != math.MinInt64 {
+			return fmt.Sprintf("(-(%s))", spell(-v))
+		}
+	case 6:
+		return fmt.Sprintf("(%s ** 1)", spell(v))
+	case 7:
+		if v >= -1 && v <= 1 {
+			a := small.Draw(t, label+"a")
+			return fmt.Sprintf("(%s <=> %s)", spell(a+v), spell(a))
+		}
+		if v == 1 {
+			return fmt.Sprintf("(%s ** 0)", spell(small.Draw(t, label+"k")))
+		}
+	case 8:
+		return fmt.Sprintf("%q.I", strconv.FormatInt(v, 10))
+	case 9:
+		if v >= 0 && v <= 6 {
+			return "[" + strings.TrimSuffix(strings.Repeat("nil, ", int(v)), ", ") + "].len"
+		}
+		p := small.Draw(t, label+"p")
+		if q := new(big.Int).Sub(V, big.NewInt(p)); fits(q) {
+			return fmt.Sprintf("[%s, %s].sum", spell(q.Int64()), spell(p))
+		}
+	case 10:
+		if v > math.MinInt64+2 && v < math.MaxInt64-2 {
+			return rapid.SampledFrom([]string{fmt.Sprintf("(%s:%s).A[1]", spell(v-1), spell(v+1)), fmt.Sprintf("(%s:%s:-1).A[1]", spell(v+1), spell(v-1)), fmt.Sprintf("[%s][0]", spell(v)), fmt.Sprintf("{a: %s}.a", spell(v))}).Draw(t, label+"elem")
+		}
+	case 11, 12:
+		inner := spellVia(t, v, pre, label+"i")
+		name := fmt.Sprintf("x%d", len(*pre))
+		*pre = append(*pre, name+" := "+inner)
+		return name
+	}
+	return spell(v)
+}
+
+var overriding = "T := Int.bear({'+: m{|o| 7777}, '-: m{|o| 7777}, '*: m{|o| 7777}, '/: m{|o| 7777}, '//: m{|o| 7777}, '%: m{|o| 7777}, '**: m{|o| 7777}, '<=>: m{|o| 7777}, '-%: m{7777}})"
+
+// genProg: the operation on operands of generated provenance, written directly, through a function, a chain or a property
+// call, optionally after the same operator site has served other kinds of operands.
+func genProg(t *rapid.T) Case {
+	c := genCase("prog").Draw(t, "case")
+	pre := []string{}
+	sa := spellVia(t, c.A, &pre, "a")
+	if c.Op == "neg" {
+		switch rapid.IntRange(0, 2).Draw(t, "shape") {
+		case 0:
+			pre = append(pre, "a := "+sa)
+			c.Main = "-a"
+		case 1:
+			pre = append(pre, "g := {|a| -a}")
+			pre = append(pre, rapid.SampledFrom([]string{overriding + "; g(T.new(5))", "g(2.5)", "g(true)", "g(Int.bear({}).new(3))", "g(1)"}).Draw(t, "earlier"))
+			c.Main = "g(" + sa + ")"
+		default:
+			c.Main = "(" + sa + ").-%"
+		}
+		c.Pre = pre
+		return c
+	}
+	sb := spellVia(t, c.B, &pre, "b")
+	switch rapid.IntRange(0, 7).Draw(t, "shape") {
+	case 0:
+		c.Main = sa + " " + c.Op + " " + sb
+	case 1, 2:
+		pre = append(pre, fmt.Sprintf("f := {|a, b| a %s b}", c.Op))
+		for n := rapid.IntRange(0, 2).Draw(t, "earlier calls"); n > 0; n-- {
+			pre = append(pre, rapid.SampledFrom([]string{overriding + "; f(T.new(5), 4)", "f(2.5, 2)", "f(true, 2)", "f(Int.bear({}).new(6), 3)", `f("a", "b")`, "f([1], [2])", "f(nil, 1)", "f(7, 3)", "f(4, T.new(5))", "f(1, 0)"}).Draw(t, "earlier"))
+		}
+		c.Main = fmt.Sprintf("f(%s, %s)", sa, sb)
+	case 3:
+		c.Main = fmt.Sprintf("(%s).%s(%s)", sa, c.Op, sb)
+	case 4:
+		c.Main = fmt.Sprintf("([%s]@{|x| x %s %s})[0]", sa, c.Op, sb)
+	case 5:
+		c.Main = fmt.Sprintf("[%s]$(%s){|a, b| a %s b}", sb, sa, c.Op)
+	case 6:
+		c.Main = fmt.Sprintf("([%s]=@%s(%s))[0]", sa, c.Op, sb)
+	default:
+		// one site serving several operand pairs in turn: the last one is judged
+		pre = append(pre, overriding)
+		first := rapid.SampledFrom([]string{"[T.new(5), 4]", "[2.5, 2]", "[true, 1]", "[4, 2]", "[Int.bear({}).new(6), 3]"}).Draw(t, "first pair")
+		c.Main = fmt.Sprintf("([%s, [%s, %s]]=@{|p| p[0] %s p[1]})[1]", first, sa, sb, c.Op)
+	}
+	c.Pre = pre
+	return c
+}
+
+func TestOperandProvenance(t *testing.T) {
+	vt.Check(t, vt.N(30000, 1500000), func(rt *rapid.T) {
+		c := genProg(rt)
+		if len(c.Pre) > 0 {
+			vt.Class("prog route: operand or operator site prepared by earlier statements")
+		}
+		run(rt, c, true)
 	})
 }
 
